@@ -37,7 +37,9 @@ class BigGamma:
 
 def observe(tag, j, g, rng, n_orient, explicit=None):
     S = xgi.SimplicialComplex()
-    S.add_nodes_from([g.node(n) for n in j["nodes"]])
+    order = list(j["nodes"])
+    rng.shuffle(order)  # nodes are not created in label order
+    S.add_nodes_from([g.node(n) for n in order])
     simplices = [[g.node(n) for n in m] for m in j["e2n"] if m]
     rng.shuffle(simplices)
     explicit = (rng.random() < 0.5) if explicit is None else explicit
@@ -51,6 +53,9 @@ def observe(tag, j, g, rng, n_orient, explicit=None):
             else:
                 S.add_simplex(m)
     st, anom = hg.proj(S, g)
+    frozen = rng.random() < 0.4
+    if frozen:
+        S.freeze()
     iN, iE = g.inv_node, g.inv_edge
     dim = max([len(m) - 1 for m in st["e2n"]] + [0])
     ids = [e for e in S.edges if len(S._edge[e]) >= 2]
@@ -63,6 +68,12 @@ def observe(tag, j, g, rng, n_orient, explicit=None):
         with warnings.catch_warnings():
             warnings.simplefilter("ignore")
             try:
+                if oi > 0 and ids:
+                    # other requests in between, under another assignment (whatever was computed for it must not
+                    # be served for this one)
+                    other = {e: conv(1 - int(v)) for e, v in ori.items()}
+                    xgi.hodge_laplacian(S, order=0, orientations=other)
+                    xgi.boundary_matrix(S, order=min(2, dim + 1), orientations=other)
                 for k in range(1, dim + 2):
                     M, rd, cd = xgi.boundary_matrix(S, order=k, orientations=None if oi == 0 else ori, index=True)
                     M = np.asarray(M)
